@@ -178,3 +178,82 @@ TWINS = [
     {"name": "if-range-gate-through-inverted-flag", "edits": [(SH, "    if not ignore_if_range and http_range is not None:", "    skip_if_range = ignore_if_range or http_range is None\n    if not skip_if_range:")]},
     {"name": "if-range-object-truthiness", "edits": [(SH, "        if if_range is not None and if_range.etag is not None:", "        if if_range and if_range.etag is not None:")]},
 ]
+
+# ---- round 3: member loop in a generator helper, lists in a table indexed by the flag, status / keyword tables ----
+_PE_BODY = (
+    "    strong = []\n    weak = []\n    end = len(value)\n    pos = 0\n    while pos < end:\n        match = _etag_re.match(value, pos)\n"
+    "        if match is None:\n            break\n        is_weak, quoted, raw = match.groups()\n        if raw == \"*\":\n"
+    "            return ds.ETags(star_tag=True)\n        elif quoted:\n            raw = quoted\n        if is_weak:\n            weak.append(raw)\n"
+    "        else:\n            strong.append(raw)\n        pos = match.end()\n    return ds.ETags(strong, weak)\n"
+)
+_PE_GEN = (
+    "\n\ndef _iter_etag_groups(value: str) -> t.Iterator[tuple[str | None, ...]]:\n    pos = 0\n    end = len(value)\n    while pos < end:\n"
+    "        match = _etag_re.match(value, pos)\n        if match is None:\n            break\n        yield match.groups()\n        pos = match.end()\n"
+)
+
+
+def _pe_table(table: str, select: str, strong: str, weak: str) -> list:
+    """parse_etags with the member loop in a generator helper and the two lists in a table"""
+    return [(HT, _PE_BODY, (
+        f"    tags = {table}\n    for is_weak, quoted, raw in _iter_etag_groups(value):\n        if raw == \"*\":\n            return ds.ETags(star_tag=True)\n"
+        f"        tags[{select}].append(quoted or raw)\n    return ds.ETags({strong}, {weak})\n" + _PE_GEN))]
+
+
+def _pe_comprehensions(strong_if: str, weak_if: str) -> list:
+    return [(HT, _PE_BODY, (
+        "    parts = list(_iter_etag_groups(value))\n    if any(raw == \"*\" for _, _, raw in parts):\n        return ds.ETags(star_tag=True)\n"
+        f"    strong = [quoted or raw for is_weak, quoted, raw in parts if {strong_if}]\n"
+        f"    weak = [quoted or raw for is_weak, quoted, raw in parts if {weak_if}]\n    return ds.ETags(strong, weak)\n" + _PE_GEN))]
+
+
+_PE_CLASSIFYING_GEN = (
+    "    strong = []\n    weak = []\n    for star, weak_tag, tag in _iter_etag_items(value):\n        if star:\n            return ds.ETags(star_tag=True)\n"
+    "        (weak if weak_tag else strong).append(tag)\n    return ds.ETags(strong, weak)\n\n\n"
+    "def _iter_etag_items(value: str) -> t.Iterator[tuple[bool, bool, str | None]]:\n    pos = 0\n    while pos < len(value):\n"
+    "        match = _etag_re.match(value, pos)\n        if match is None:\n            return\n        is_weak, quoted, raw = match.groups()\n"
+    "        if raw == \"*\":\n            yield True, False, None\n            return\n        yield False, FLAG, quoted or raw\n        pos = match.end()\n"
+)
+_MC_STATUS = "                if parse_etags(environ.get(\"HTTP_IF_MATCH\")):\n                    self.status_code = 412\n                else:\n                    self.status_code = 304\n"
+_MC_IRM = "            if not is206 and not is_resource_modified(\n                environ,\n                self.headers.get(\"etag\"),\n                None,\n                self.headers.get(\"last-modified\"),\n            ):\n"
+_WRAP_CALL = (
+    "    return _sansio_http.is_resource_modified(\n        http_range=environ.get(\"HTTP_RANGE\"),\n        http_if_range=environ.get(\"HTTP_IF_RANGE\"),\n"
+    "        http_if_modified_since=environ.get(\"HTTP_IF_MODIFIED_SINCE\"),\n        http_if_none_match=environ.get(\"HTTP_IF_NONE_MATCH\"),\n"
+    "        http_if_match=environ.get(\"HTTP_IF_MATCH\"),\n        etag=etag,\n        data=data,\n        last_modified=last_modified,\n        ignore_if_range=ignore_if_range,\n    )\n"
+)
+
+
+def _wrap_table(names: str) -> str:
+    return (
+        "    request_headers = {\n        f\"http_{param}\": environ.get(f\"HTTP_{header.upper()}\")\n"
+        f"        for param, header in ({names})\n    }}\n"
+        "    return _sansio_http.is_resource_modified(\n        etag=etag,\n        data=data,\n        last_modified=last_modified,\n        ignore_if_range=ignore_if_range,\n        **request_headers,\n    )\n"
+    )
+
+
+_WRAP_NAMES = '("range", "range"), ("if_range", "if_range"), ("if_modified_since", "if_modified_since"), ("if_none_match", "if_none_match"), ("if_match", "if_match")'
+
+TWINS += [
+    {"name": "shape:parse-etags-generator-dict-table", "edits": _pe_table("{False: [], True: []}", "bool(is_weak)", "tags[False]", "tags[True]")},
+    {"name": "shape:parse-etags-generator-pair-table", "edits": _pe_table("([], [])", "is_weak is not None", "tags[0]", "tags[1]")},
+    {"name": "shape:parse-etags-generator-keyword-lists", "edits": _pe_table("{True: [], False: []}", "not not is_weak", "weak_etags=tags[True]", "strong_etags=tags[False]")},
+    {"name": "shape:parse-etags-generator-comprehensions", "edits": _pe_comprehensions("not is_weak", "is_weak")},
+    {"name": "shape:parse-etags-classifying-generator", "edits": [(HT, _PE_BODY, _PE_CLASSIFYING_GEN.replace("FLAG", "bool(is_weak)"))]},
+    {"name": "shape:status-dict-table", "edits": [(RS, _MC_STATUS, "                self.status_code = {True: 412, False: 304}[bool(parse_etags(environ.get(\"HTTP_IF_MATCH\")))]\n")]},
+    {"name": "shape:status-pair-table-through-local", "edits": [(RS, _MC_STATUS, "                if_match = parse_etags(environ.get(\"HTTP_IF_MATCH\"))\n                codes = (304, 412)\n                self.status_code = codes[bool(if_match)]\n")]},
+    {"name": "shape:status-module-table", "edits": [(RS, _MC_STATUS, "                self.status_code = _CONDITIONAL_STATUS[not parse_etags(environ.get(\"HTTP_IF_MATCH\"))]\n"), (RS, "class Response(_SansIOResponse):\n", "_CONDITIONAL_STATUS = {True: 304, False: 412}\n\n\nclass Response(_SansIOResponse):\n")]},
+    {"name": "shape:status-through-local", "edits": [(RS, _MC_STATUS, "                code = 412 if parse_etags(environ.get(\"HTTP_IF_MATCH\")) else 304\n                self.status_code = code\n")]},
+    {"name": "shape:validators-keyword-table", "edits": [(RS, _MC_IRM, "            validators = {\"etag\": self.headers.get(\"etag\"), \"data\": None, \"last_modified\": self.headers.get(\"last-modified\")}\n            if not is206 and not is_resource_modified(environ, **validators):\n")]},
+    {"name": "shape:validators-positional-table", "edits": [(RS, _MC_IRM, "            validators = (self.headers.get(\"etag\"), None, self.headers.get(\"last-modified\"))\n            if not is206 and not is_resource_modified(environ, *validators):\n")]},
+    {"name": "shape:request-headers-keyword-table-comprehension", "edits": [(HT, _WRAP_CALL, _wrap_table(_WRAP_NAMES))]},
+]
+MUTANTS += [
+    {"name": "shape:parse-etags-generator-dict-table-selector-inverted", "expect": "R11.1", "edits": _pe_table("{False: [], True: []}", "not is_weak", "tags[False]", "tags[True]")},
+    {"name": "shape:parse-etags-generator-dict-table-lists-swapped", "expect": "R11.1", "edits": _pe_table("{False: [], True: []}", "bool(is_weak)", "tags[True]", "tags[False]")},
+    {"name": "shape:parse-etags-generator-pair-table-selected-by-quoted", "expect": "R11.1", "edits": _pe_table("([], [])", "quoted is not None", "tags[0]", "tags[1]")},
+    {"name": "shape:parse-etags-generator-comprehensions-same-filter", "expect": "R11.1", "edits": _pe_comprehensions("not is_weak", "not is_weak")},
+    {"name": "shape:parse-etags-classifying-generator-flag-negated", "expect": "R11.1", "edits": [(HT, _PE_BODY, _PE_CLASSIFYING_GEN.replace("FLAG", "not is_weak"))]},
+    {"name": "shape:status-dict-table-swapped", "expect": "R11.4", "edits": [(RS, _MC_STATUS, "                self.status_code = {True: 304, False: 412}[bool(parse_etags(environ.get(\"HTTP_IF_MATCH\")))]\n")]},
+    {"name": "shape:status-pair-table-swapped", "expect": "R11.4", "edits": [(RS, _MC_STATUS, "                if_match = parse_etags(environ.get(\"HTTP_IF_MATCH\"))\n                codes = (412, 304)\n                self.status_code = codes[bool(if_match)]\n")]},
+    {"name": "shape:validators-keyword-table-etag-from-request", "expect": "R11.4", "edits": [(RS, _MC_IRM, "            validators = {\"etag\": environ.get(\"HTTP_IF_NONE_MATCH\"), \"data\": None, \"last_modified\": self.headers.get(\"last-modified\")}\n            if not is206 and not is_resource_modified(environ, **validators):\n")]},
+    {"name": "shape:request-headers-keyword-table-crossed", "expect": "R11.1", "edits": [(HT, _WRAP_CALL, _wrap_table(_WRAP_NAMES.replace('("if_match", "if_match")', '("if_match", "if_none_match")')))]},
+]
